@@ -135,6 +135,20 @@ CHECKS = {
             {"pkg": "pkg/linter/rules/style", "harness": "VxC17_L008_Leading5", "tiers": ["thorough"]},
         ],
     },
+    "C18": {
+        "bounds": {"quick": "document mirror: every ASCII document <= 3 bytes over {a \\n}, one change that is either a full replacement or an incremental edit whose four position fields are UNCONSTRAINED 64-bit integers (negative, inverted, past-the-end, huge), text <= 1 byte: no panic for any positions, and for well-formed ranges the mirrored text equals the protocol's reference edit; two ranged edits in one notification (positions 0..3 symbolic) over three two-line documents; framing: 'Content-Length:' followed by every value <= 3 bytes over {0-9 - + space}: no panic, body bytes respected",
+                   "thorough": "documents <= 5 bytes; two arbitrary changes (positions -1..3) over documents <= 2 bytes; header values <= 4 bytes"},
+        "outside": "whole conversations through Server.Run: request dispatch, 'exactly one response per request id', malformed JSON, outgoing frame lengths and published diagnostics go through encoding/json (reflection), which this engine cannot execute; UTF-16 columns on non-ASCII text (the mirror treats columns as bytes: a defect the property file already records; not exercised here because the kernels are restricted to ASCII)",
+        "assumptions": ["the reference edit (refApply) states the protocol's position rules for ASCII text: a line past the end clamps to the end of the document, a character past the end of a line clamps to the line end"],
+        "runs": [
+            {"pkg": "pkg/lsp", "harness": "VxC18_Mirror1", "tiers": ["quick"], "generic": ["panic"], "expect_asserts": ["C18.mirror_content"]},
+            {"pkg": "pkg/lsp", "harness": "VxC18_Mirror2R", "tiers": ["quick", "thorough"], "generic": ["panic"], "expect_asserts": ["C18.mirror_content2"]},
+            {"pkg": "pkg/lsp", "harness": "VxC18_Framing3", "tiers": ["quick"], "generic": ["panic"], "expect_asserts": ["C18.frame_bytes"]},
+            {"pkg": "pkg/lsp", "harness": "VxC18_Mirror1L", "tiers": ["thorough"], "generic": ["panic"]},
+            {"pkg": "pkg/lsp", "harness": "VxC18_Mirror2", "tiers": ["thorough"], "generic": ["panic"], "thorough": {"timeout": 7200}},
+            {"pkg": "pkg/lsp", "harness": "VxC18_Framing4", "tiers": ["thorough"], "generic": ["panic"]},
+        ],
+    },
     "C11": {
         "bounds": {"quick": "Parser.ParseContext under a context that turns done at its k-th poll (k symbolic 0..63, both Canceled and DeadlineExceeded, arbitrary start depth 0..49): a 70-token nested statement (CTE, IN list, CASE, nested function calls, JOIN ON, BETWEEN, UNION, EXISTS sub-query), an INSERT ... RETURNING with function calls, and every <= 2-token continuation of SELECT / SELECT a FROM t WHERE over the 45-row expression table",
                    "thorough": "<= 3-token continuations"},
